@@ -29,11 +29,12 @@ META = {
 }
 META["explanation"] += '  gaf/stat-same-path: the same path holds the plain file first and its BGZF copy later in one execution, and the other way round.'
 META["explanation"] += '  The BGZF GAF is called z.bgzf.gaf (no .gz suffix); the compressed graph of the replay is a gzip file of two members.'
+META["explanation"] += '  One read name of the GAF holds multi-byte characters; one segment of the graphs carries a Z annotation with blanks.'
 
 LINES = [
     "r0\t50\t0\t10\t+\t>s0>s1\t25\t2\t12\t9\t10\t60\ttp:A:P\tNM:i:-1\tcg:Z:5=1X4=\n",
     "r1\t50\t0\t10\t+\t<s1<a0\t19\t0\t10\t10\t10\t0\ttp:A:S\tcg:Z:10=\n",
-    "r2 extra words\t50\t3\t13\t+\t>s1<b0>s2\t22\t1\t11\t8\t10\t60\tcg:Z:4=2D4=\tzd:Z:a b:c \n",
+    "r2 extra w\u00f6rds \u4e2d\t50\t3\t13\t+\t>s1<b0>s2\t22\t1\t11\t8\t10\t60\tcg:Z:4=2D4=\tzd:Z:a b:c \n",
 ]
 STABLE = [
     "r0\t50\t0\t10\t+\tchr1\t30\t2\t12\t9\t10\t60\ttp:A:P\tcg:Z:5=1X4=\n",
@@ -73,6 +74,8 @@ def gfa_lines(tagged=False, seq=False):
     out = []
     for nid, (sn, so, ln, sr) in IF.LAY.items():
         l = "S\t%s\t%s\tLN:i:%d\tSN:Z:%s\tSO:i:%d\tSR:i:%d" % (nid, ("ACGT" * 10)[:ln] if seq else "*", ln, sn, so, sr)
+        if nid == "s1":
+            l += "\tDS:Z:primary assembly, patch 2"  # a Z value may hold blanks
         if tagged:
             l += "\tBO:i:%d\tNO:i:%d" % BONO[nid]
         out.append(l + "\n")
@@ -293,7 +296,7 @@ def big_view_nodes(wd, gfa, rep=1500):
     import gc
 
     gaf = os.path.join(wd, "big.gaf")
-    with open(gaf, "w") as fh:
+    with open(gaf, "w", encoding="utf-8") as fh:
         for j in range(rep):
             for l in LINES:
                 f = l.rstrip("\n").split("\t")
@@ -307,7 +310,7 @@ def big_view_nodes(wd, gfa, rep=1500):
             o = g + ".sel"
             V.run(g, output=o, nodes=["b0"])
             gc.collect()
-            outs.append(open(o).read().splitlines())
+            outs.append(open(o, encoding="utf-8").read().split("\n"))
         except BaseException as e:  # noqa
             return "index + view -n b0 on %s (%d records, several BGZF blocks) raised %s: %s" % (os.path.basename(g), rep * len(LINES), type(e).__name__, e)
     if outs[0] != outs[1]:
@@ -343,13 +346,13 @@ def replay(params, model, wd):
         fh.write(gzip.compress("".join(gl[len(gl) // 2:]).encode()))
     lines = STABLE if cons == "index-stable" else LINES
     gaf = os.path.join(wd, "p.gaf")
-    open(gaf, "w").write("".join(lines))
+    open(gaf, "w", encoding="utf-8").write("".join(lines))
     pysam.tabix_compress(gaf, os.path.join(wd, "z.bgzf.gaf"), force=True)
     zgaf = os.path.join(wd, "z.bgzf.gaf")
 
     def read(p):
         gc.collect()
-        return open(p).read().splitlines() if os.path.exists(p) else None
+        return open(p, encoding="utf-8").read().split("\n") if os.path.exists(p) else None
 
     def out(n):
         return os.path.join(wd, n)
